@@ -143,7 +143,8 @@ def gen_jockey(rng):
           "nodes": [{"c": rng.choice([1, 1, 2]), "qcap": INF}, {"c": rng.choice([1, 2]), "qcap": rng.choice([INF, INF, 1])}],
           "arrS": [[samples(rng, 1, 3, 2) for _ in range(K)], [(samples(rng, 1, 4, 2) if rng.random() < 0.5 else []) for _ in range(K)]],
           "svcS": [[samples(rng, 2, 7, 2) for _ in range(K)], [samples(rng, 1, 5, 2) for _ in range(K)]],
-          "patS": [[samples(rng, 0, 4, 2) for _ in range(K)], [[] for _ in range(K)]],
+          "patS": [[samples(rng, 0, 4, 2) for _ in range(K)],
+                   [(samples(rng, 1, 5, 2) if rng.random() < 0.5 else []) for _ in range(K)]],
           "prio": list(range(K)), "T": rng.randint(12, 35)}
     routers = [{"t": "leave", "jock": 2}, {"t": "leave"}]
     if rng.random() < 0.5:
@@ -207,6 +208,13 @@ def gen_route(rng):
                    (r["t"] == "prob" and sum(r["probs"]) < 4) for r in routers):
             routers[-1] = {"t": "leave"}
         sc["route"] = [{"kind": "nr", "routers": routers}]
+        if rng.random() < 0.4:
+            # two classes given the very same routing object (a shared Cycle position, for instance)
+            sc["K"] = 2
+            sc["route"].append(dict(copy.deepcopy(sc["route"][0]), same=1))
+            sc["arrS"] = [[row[0], samples(rng, 1, 3, 2)] for row in sc["arrS"]]
+            sc["svcS"] = [[row[0], samples(rng, 1, 3, 2)] for row in sc["svcS"]]
+            sc.pop("batchS", None)
     else:
         routes = []
         for _ in range(rng.randint(1, 3)):
